@@ -89,13 +89,42 @@ def run_impl(progs, mode, extra=()):
     return [split_impl(r) for r in res]
 
 
-def run_model(which, trees, hints=False, fuel=FUEL, flags=None):
-    """flags: optional per-tree list of extra flag strings such as 'fault=2:runtime_error'"""
+_parse_bin = {}
+
+
+def eval_tables(progs, mode):
+    """for every program: ' @@ <hex text> <tree>' for each text it hands to eval("…"), parsed by the implementation's parser"""
+    import re
+    if "h" not in _parse_bin:
+        _parse_bin["h"] = vlib.cxx_build("h_parse")
+    texts = []
+    per = []
+    for p in progs:
+        ts = []
+        for m in re.finditer(r'eval\("((?:[^"\\]|\\.)*)"\)', p):
+            t = m.group(1).replace('\\"', '"').replace("\\\\", "\\")
+            ts.append(t)
+            texts.append(t)
+        per.append(ts)
+    uniq = sorted(set(texts))
+    dumps = {}
+    if uniq:
+        rc, res, err = vlib.run_lines(_parse_bin["h"], ["%s %s" % (mode, vlib.hexs(t)) for t in uniq], timeout=600)
+        for t, r in zip(uniq, res):
+            if r.startswith("OK "):
+                dumps[t] = r[3:]
+    return ["".join(" @@ %s %s" % (vlib.hexs(t), dumps[t]) for t in sorted(set(ts)) if t in dumps) for ts in per]
+
+
+def run_model(which, trees, hints=False, fuel=FUEL, flags=None, evals=None):
+    """flags: optional per-tree list of extra flag strings such as 'fault=2:runtime_error';
+    evals: optional per-tree suffixes from eval_tables()"""
     b = bins()
     if b.get(which) is None:
         return [None] * len(trees)
     fl = flags or [""] * len(trees)
-    rc, res, err = vlib.run_lines(b[which], ["%d%s %d %s" % (1 if hints else 0, ("," + x) if x else "", fuel, t) for t, x in zip(trees, fl)], timeout=3000)
+    evs = evals or [""] * len(trees)
+    rc, res, err = vlib.run_lines(b[which], ["%d%s %d %s%s" % (1 if hints else 0, ("," + x) if x else "", fuel, t, e) for t, x, e in zip(trees, fl, evs)], timeout=3000)
     if len(res) != len(trees):
         raise vlib.BuildError("model %s produced %d lines for %d trees: %s" % (which, len(res), len(trees), err[-1000:]))
     return res
